@@ -25,7 +25,7 @@ def byte_cells_of_bv(x, nbytes):
 def bytelen(x):
     """number of significant bytes of a 256-bit value (0 for 0)"""
     L = bvval(0, 64)
-    for k in range(1, 33):
+    for k in range(1, x.size() // 8 + 1):
         L = z3.If(z3.LShR(x, 8 * (k - 1)) != 0, bvval(k, 64), L)
     return z3.simplify(L)
 
@@ -274,23 +274,23 @@ def big_Bytes(ex, st, args, ctx):
     used('(*math/big.Int).Bytes: minimal big-endian bytes of a value < 2^256')
     x = bigptr(ex, st, args[0]).v
     L = bytelen(x)
-    sh = z3.ZeroExt(BIG - 64, bvval(8, 64) * (bvval(32, 64) - L))
+    sh = z3.ZeroExt(BIG - 64, bvval(8, 64) * (bvval(NB, 64) - L))
     y = z3.simplify(x << sh)
-    return new_bytes(ex, st, byte_cells_of_bv(y, 32), L, 0, 32)
+    return new_bytes(ex, st, byte_cells_of_bv(y, NB), L, 0, NB)
 
 
 def bytes_value(ex, st, s):
     """big-endian integer denoted by a byte slice (len <= 32), as BV256"""
     cells = ex.cells(st, s)
     if isinstance(s.len, int):
-        if s.len > 32:
-            raise Unsupported('SetBytes of more than 32 bytes')
+        if s.len > NB:
+            raise Unsupported('SetBytes of more than %d bytes' % NB)
         v = bvval(0, BIG)
         for k in range(s.len):
             v = (v << 8) | z3.ZeroExt(BIG - 8, cells[k])
         return z3.simplify(v)
-    if s.hi > 32:
-        raise Unsupported('SetBytes of possibly more than 32 bytes')
+    if s.hi > NB:
+        raise Unsupported('SetBytes of possibly more than %d bytes' % NB)
     res = bvval(0, BIG)
     for L in range(s.hi, -1, -1):
         v = bvval(0, BIG)
@@ -313,11 +313,11 @@ def big_FillBytes(ex, st, args, ctx):
     if not isinstance(buf.len, int):
         raise Unsupported('FillBytes into symbolic-length buffer')
     n = buf.len
-    if n < 32 and not ex.must(st, z3.ULT(x, bvval(1 << (8 * n), BIG))):
+    if n < NB and not ex.must(st, z3.ULT(x, bvval(1 << (8 * n), BIG))):
         raise PathEnd('panic', 'FillBytes: value does not fit in %d bytes at %s' % (n, ctx['pos']))
-    cells = byte_cells_of_bv(x, 32)
+    cells = byte_cells_of_bv(x, NB)
     for i in range(n):
-        j = 32 - n + i
+        j = NB - n + i
         ex.store(st, ex.slice_cell_ptr(buf, i), cells[j] if j >= 0 else bvval(0, 8))
     return buf
 
@@ -752,16 +752,16 @@ def _trim(ex, st, args, ctx, left, right):
     tz = bvval(0, 64)
     if right:
         for k in range(n, 0, -1):         # number of trailing zero bytes
-            tz = z3.If(z3.Extract(8 * k - 1, 0, v) == 0, bvval(k, 64), tz) if k < 32 or True else tz
+            tz = z3.If(z3.Extract(8 * k - 1, 0, v) == 0, bvval(k, 64), tz)
         tz = z3.simplify(tz)
         v = z3.simplify(z3.LShR(v, z3.ZeroExt(BIG - 64, tz * 8)))
     if left:
         L = bytelen(v)
     else:
         L = z3.simplify(bvval(n, 64) - tz)
-    sh = z3.ZeroExt(BIG - 64, bvval(8, 64) * (bvval(32, 64) - L))
+    sh = z3.ZeroExt(BIG - 64, bvval(8, 64) * (bvval(NB, 64) - L))
     y = z3.simplify(v << sh)
-    return new_bytes(ex, st, byte_cells_of_bv(y, 32), L, 0, 32)
+    return new_bytes(ex, st, byte_cells_of_bv(y, NB), L, 0, NB)
 
 
 def sync_pool_get(ex, st, args, ctx):
